@@ -38,7 +38,7 @@ META = {
                     "scipy `diags(a) * J` scales row i of J by a[i]"],
     "technique": "abstract interpretation over dual numbers + sympy derivative comparison",
 }
-MIN_INSTANCES = {"R1": 19, "R2": 18, "R3": 20, "R4": 5}
+MIN_INSTANCES = {"R1": 19, "R2": 18, "R3": 20, "R4": 7, "R5": 2}
 
 x, y, c, a = sp.symbols("x y c a", positive=True)
 xr = sp.Symbol("x", real=True)  # argument of the function library (abs/sign need a sign-indefinite symbol)
@@ -324,7 +324,8 @@ class Interp:
         op = type(e.op)
         if isinstance(l, E) and isinstance(r, E):
             f = {ast.Add: lambda p, q: p + q, ast.Sub: lambda p, q: p - q, ast.Mult: lambda p, q: p * q,
-                 ast.Div: lambda p, q: p / q, ast.Pow: lambda p, q: p ** q}.get(op)
+                 ast.Div: lambda p, q: sp.Mul(p, sp.Pow(q, -1, evaluate=False), evaluate=False),  # keep written divisions visible
+                 ast.Pow: lambda p, q: p ** q}.get(op)
             if f is None:
                 raise Undecided(f"operator {op.__name__} on arrays")
             return _bin(f, l, r)
@@ -479,6 +480,31 @@ def _zero(e: sp.Expr) -> bool:
     raise Undecided(f"sympy inconclusive on {e}")
 
 
+def _removable_singularity(written: sp.Expr, want: sp.Expr) -> bool:
+    """Spot value of the *expression as written* at operand value 0 (other symbols := 2): a written division by
+    the operand (e.g. `n * x**n / x` for `n * x**(n-1)`) is algebraically equal but evaluates to NaN at 0 where the
+    true derivative is finite."""
+    import numpy as _np
+    if any(isinstance(t, (PC, MM)) for t in (written.atoms(sp.Function) | want.atoms(sp.Function))):
+        return False
+    syms = sorted(written.free_symbols | want.free_symbols, key=str)
+    vals = [0.0 if str(sy) == "x" else 2.0 for sy in syms]
+
+    def at0(e):
+        try:
+            f = sp.lambdify(syms, e, "numpy")  # prints the expression as written (no re-simplification)
+            with _np.errstate(all="ignore"):
+                return complex(f(*vals))
+        except ZeroDivisionError:
+            return complex("nan")
+        except Exception:
+            return None
+    wv, gv = at0(sp.simplify(want)), at0(written)
+    if wv is None or gv is None or not _np.isfinite(wv):
+        return False
+    return not _np.isfinite(gv)
+
+
 def _eq(p: sp.Expr, q: sp.Expr) -> bool:
     return _zero(sp.sympify(p) - sp.sympify(q))
 
@@ -525,6 +551,7 @@ def _check_overloads(ctx: Ctx, fwd, cls) -> None:
                 do = res.jac.co.get("other", E.of(0)).on
                 ok_s = _eq(ds, sp.diff(want, x))
                 ok_o = True if kind != "ad" else _eq(do, sp.diff(want, y))
+                sing = _removable_singularity(ds, sp.diff(want, x)) or (kind == "ad" and _removable_singularity(do, sp.diff(want, y)))
                 facts = {"value": str(sp.simplify(res.val.on)), "coeff_self_jac": str(sp.simplify(ds)),
                          "coeff_other_jac": str(sp.simplify(do)) if kind == "ad" else None,
                          "expected_value": str(want), "expected_d_dself": str(sp.simplify(sp.diff(want, x)))}
@@ -535,7 +562,10 @@ def _check_overloads(ctx: Ctx, fwd, cls) -> None:
                     msg.append(f"coefficient of self.jac is {facts['coeff_self_jac']}, derivative is {facts['expected_d_dself']}")
                 if not ok_o:
                     msg.append(f"coefficient of other.jac is {facts['coeff_other_jac']}, derivative is {sp.simplify(sp.diff(want, y))}")
-                ctx.check("R3", ok_v and ok_s and ok_o, fwd, q, fn, "; ".join(msg) or "dual rule exact", construct=cons, facts=facts)
+                if sing:
+                    msg.append("the Jacobian factor as written divides by the operand's value: NaN at value 0 where the derivative is finite "
+                               "(removable singularity)")
+                ctx.check("R3", ok_v and ok_s and ok_o and not sing, fwd, q, fn, "; ".join(msg) or "dual rule exact", construct=cons, facts=facts)
                 ctx.sample({"rule": "R3", "arm": cons, **facts})
     # __neg__
     res = it.call_method("__neg__", selfv, [])
@@ -607,7 +637,8 @@ def _check_functions(ctx: Ctx, fun, fwdcls) -> None:
         # R1: derivative
         V, G = adr.val, adr.jac.co.get("self", E.of(0))
         extra = set(adr.jac.co) - {"self"}
-        ok_on = _eq(sp.diff(V.on, xr), G.on)
+        sing_f = _removable_singularity(G.on, sp.diff(V.on, xr))
+        ok_on = _eq(sp.diff(V.on, xr), G.on) and not sing_f
         ok_off = _eq(sp.diff(V.off, xr), G.off)
         facts = {"function": name, "val": str(V.on), "jac_factor": str(sp.simplify(G.on)), "d_val": str(sp.simplify(sp.diff(V.on, xr)))}
         if V.mask is not None or G.mask is not None:
@@ -726,6 +757,15 @@ def _check_maximum(ctx: Ctx, fun) -> None:
         if isinstance(s, ast.Call) and call_name(s) == "merge_matrices":
             jac_patch_sites += 1
             pm_ok &= len(s.args) >= 3 and u(s.args[0]) == mj and u(s.args[2]) == inds
+    # every AdArray returned by maximum carries either a zero Jacobian (both arguments constant) or the patched Jacobian
+    for r in [r_ for r_ in walk_local(fn) if isinstance(r_, ast.Return) and isinstance(r_.value, ast.Call) and call_name(r_.value) == "AdArray"]:
+        if len(r.value.args) != 2:
+            raise Undecided("maximum: AdArray return with unexpected arity")
+        jv = u(r.value.args[1])
+        vv = u(r.value.args[0])
+        ok_r = jv == "0" or (jv == mj and vv == mv)
+        ctx.check("R4", ok_r, fun, q, r, f"maximum returns AdArray({vv}, {jv}): the Jacobian must be the row-patched one (rows where the second "
+                  f"argument wins come from its Jacobian, zero for a constant) paired with the patched value", construct=f"maximum: return AdArray({vv}, {jv})")
     ctx.check("R4", pm_ok and jac_patch_sites >= 3 and idxs == [0, 1], fun, q, fn,
               f"Jacobian rows must be patched at the same index set `{inds}` from the second argument's Jacobian",
               construct="maximum: jacobian patch", facts={"sites": jac_patch_sites})
@@ -797,11 +837,39 @@ def _check_l2norm(ctx: Ctx, fun) -> None:
     ctx.check("R4", ok, fun, q, d1[0] if d1 else fn, "l2_norm with dim == 1 must delegate to abs", construct="l2_norm: dim==1")
 
 
+def _check_ctor(ctx: Ctx, fwd, cls) -> None:
+    """R5: AdArray.__init__ must store fresh arrays.  The overloads pass operands' arrays straight through
+    (`AdArray(self.val + c, self.jac)`, slicing views), so a constructor that keeps references makes results alias
+    their operands; a later in-place row assignment then corrupts the operand."""
+    init = methods(cls).get("__init__")
+    if init is None:
+        raise AnchorError("AdArray.__init__ missing")
+    params = [p.arg for p in init.args.args[1:]]
+    for attr, par_ in zip(("val", "jac"), params):
+        st = [s_ for s_ in walk_local(init) if isinstance(s_, (ast.Assign, ast.AnnAssign)) and u(s_.targets[0] if isinstance(s_, ast.Assign) else s_.target) == f"self.{attr}"]
+        if len(st) != 1 or st[0].value is None:
+            raise Undecided(f"AdArray.__init__: store of self.{attr} not found")
+        v = st[0].value
+        fresh = False
+        if isinstance(v, ast.Call) and isinstance(v.func, ast.Attribute) and v.func.attr == "astype":
+            cp = kwarg(v, "copy")
+            fresh = cp is None or (isinstance(cp, ast.Constant) and cp.value is True)
+        elif isinstance(v, ast.Call) and ((isinstance(v.func, ast.Attribute) and v.func.attr == "copy") or dotted(v.func) in ("np.array", "copy.copy", "copy.deepcopy")):
+            fresh = kwarg(v, "copy") is None or getattr(kwarg(v, "copy"), "value", True) is True
+        elif isinstance(v, ast.Name):
+            fresh = False
+        else:
+            raise Undecided(f"AdArray.__init__: cannot classify `{u(v)}` as fresh or aliased")
+        ctx.check("R5", fresh, fwd, "AdArray.__init__", st[0], f"self.{attr} keeps a reference to the constructor argument (`{u(v)}`): results of "
+                  f"overloads that pass an operand's array through (e.g. u + c shares u.jac) alias their operands", construct=f"AdArray.__init__: self.{attr} = {u(v)}")
+
+
 def run(ctx: Ctx) -> None:
     fwd = ctx.repo.module(FWD)
     fun = ctx.repo.module(FUN)
     cls = fwd.cls("AdArray")
     _check_overloads(ctx, fwd, cls)
+    _check_ctor(ctx, fwd, cls)
     _check_functions(ctx, fun, cls)
     _check_regularized(ctx, fun)
     _check_maximum(ctx, fun)
@@ -813,6 +881,9 @@ def _m(name, old, new, rule, file=FUN, control=False, count=1, accept_undecided=
 
 
 MUTANTS = [
+    _m("seed-pow-array-reuses-power-divides-by-val", "new_jac = self._diagvec_mul_jac(other * (self.val ** (other - 1)))", "new_jac = self._diagvec_mul_jac(other * new_val / self.val)", "R3", file=FWD),
+    _m("seed-ctor-no-copy", "        self.jac: sps.spmatrix = jac.astype(float)", "        self.jac: sps.spmatrix = jac.astype(float, copy=False)", "R5", file=FWD),
+    _m("seed-maximum-scalar-clip-keeps-jac", "        vals[1] = np.ones_like(vals[0]) * vals[1]\n", "        return AdArray(np.maximum(vals[0], vals[1]), jacs[0])\n", "R4"),
     _m("revert-fix-safe-power", "    jac_vals[nonzero_inds] = power * _val[nonzero_inds] ** (power - 1.0)", "    jac_vals[nonzero_inds] = power * vals[nonzero_inds] ** (power - 1.0)", "R1", control=True),
     _m("safe-power-nonzero-derivative-off-mask", "    jac_vals = np.zeros_like(vals)\n", "    jac_vals = np.ones_like(vals)\n", "R1"),
     _m("cos-jac-sign", "jac = var._diagvec_mul_jac(-np.sin(var.val))", "jac = var._diagvec_mul_jac(np.sin(var.val))", "R1", control=True),
